@@ -123,6 +123,103 @@ func fingerprint(repo, file, fn string, extra map[string]bool) ([]string, error)
 	return out, nil
 }
 
+
+// handover records, in source order, how a function treats EVM.ETXCache and the per-transaction outbound record
+// (TransitionDb: the dump of the cache into ExecutionResult.Etxs; applyTransaction: receipt.OutboundEtxs;
+// EVM.Reset): allocations (make), copy, every assignment to / from ...ETXCache and to OutboundEtxs / Etxs.
+func handover(repo, file, fn string) ([]string, error) {
+	fset := token.NewFileSet()
+	f, err := parser.ParseFile(fset, filepath.Join(repo, file), nil, 0)
+	if err != nil {
+		return nil, err
+	}
+	isCache := func(e ast.Expr) bool {
+		se, ok := e.(*ast.SelectorExpr)
+		return ok && se.Sel.Name == "ETXCache"
+	}
+	expr := func(e ast.Expr) string {
+		switch x := e.(type) {
+		case *ast.SelectorExpr:
+			if isCache(x) {
+				return "ETXCache"
+			}
+			if id, ok := x.X.(*ast.Ident); ok {
+				return id.Name + "." + x.Sel.Name
+			}
+			return "." + x.Sel.Name
+		case *ast.Ident:
+			return x.Name
+		case *ast.SliceExpr:
+			if isCache(x.X) {
+				return "ETXCache[:]"
+			}
+			return "slice"
+		case *ast.CallExpr:
+			if id, ok := x.Fun.(*ast.Ident); ok {
+				if id.Name == "make" && len(x.Args) >= 2 {
+					if ce, ok := x.Args[1].(*ast.CallExpr); ok {
+						if lid, ok := ce.Fun.(*ast.Ident); ok && lid.Name == "len" && len(ce.Args) == 1 && isCache(ce.Args[0]) {
+							return "make(len(ETXCache))"
+						}
+					}
+					if bl, ok := x.Args[1].(*ast.BasicLit); ok {
+						return "make(" + bl.Value + ")"
+					}
+					return "make(?)"
+				}
+				return id.Name + "()"
+			}
+			if se, ok := x.Fun.(*ast.SelectorExpr); ok {
+				return se.Sel.Name + "()"
+			}
+		}
+		return "?"
+	}
+	var out []string
+	found := false
+	for _, d := range f.Decls {
+		fd, ok := d.(*ast.FuncDecl)
+		if !ok || fd.Name.Name != fn || fd.Body == nil {
+			continue
+		}
+		found = true
+		ast.Inspect(fd.Body, func(n ast.Node) bool {
+			switch x := n.(type) {
+			case *ast.AssignStmt:
+				for i := range x.Lhs {
+					if i >= len(x.Rhs) {
+						break
+					}
+					l, r := expr(x.Lhs[i]), expr(x.Rhs[i])
+					if l == "ETXCache" || strings.HasSuffix(l, "OutboundEtxs") || strings.HasSuffix(l, ".Etxs") ||
+						r == "ETXCache" || r == "ETXCache[:]" || strings.HasPrefix(r, "make(len(ETXCache") || strings.HasSuffix(r, ".Etxs") {
+						out = append(out, l+"="+r)
+					}
+				}
+			case *ast.CallExpr:
+				if id, ok := x.Fun.(*ast.Ident); ok && id.Name == "copy" && len(x.Args) == 2 {
+					out = append(out, "copy("+expr(x.Args[0])+","+expr(x.Args[1])+")")
+				}
+				if se, ok := x.Fun.(*ast.SelectorExpr); ok && (se.Sel.Name == "Reset" || se.Sel.Name == "Failed") {
+					out = append(out, se.Sel.Name)
+				}
+				if id, ok := x.Fun.(*ast.Ident); ok && id.Name == "ApplyMessage" {
+					out = append(out, "ApplyMessage")
+				}
+			case *ast.KeyValueExpr:
+				if k, ok := x.Key.(*ast.Ident); ok && k.Name == "Etxs" {
+					out = append(out, "Etxs:"+expr(x.Value))
+				}
+			}
+			return true
+		})
+	}
+	if !found {
+		return nil, fmt.Errorf("function %s not found in %s", fn, file)
+	}
+	return out, nil
+}
+
 func main() {
 	repo := flag.String("repo", "/repo", "go-quai tree")
 	out := flag.String("out", "", "output .v")
@@ -220,6 +317,23 @@ func main() {
 		{"src_gasStaticCall", "core/vm/gas_table.go", "gasStaticCall", frameExtra},
 	} {
 		fp, err := fingerprint(*repo, f.file, f.fn, f.extra)
+		if err != nil {
+			fmt.Fprintln(os.Stderr, err)
+			os.Exit(1)
+		}
+		items := make([]string, len(fp))
+		for i, s := range fp {
+			items[i] = coqStr(s)
+		}
+		w("Definition %s : list string := [%s].\n", f.name, strings.Join(items, "; "))
+	}
+	w("\n(* how the per-transaction ETX cache is handed to the transaction's result / receipt *)\n")
+	for _, f := range []struct{ name, file, fn string }{
+		{"src_handover_TransitionDb", "core/state_transition.go", "TransitionDb"},
+		{"src_handover_applyTransaction", "core/state_processor.go", "applyTransaction"},
+		{"src_handover_Reset", "core/vm/evm.go", "Reset"},
+	} {
+		fp, err := handover(*repo, f.file, f.fn)
 		if err != nil {
 			fmt.Fprintln(os.Stderr, err)
 			os.Exit(1)
